@@ -222,13 +222,16 @@ def remerge (rows : Bool) (start count : Int) (s : MState) : List Rct → PyM MS
       let s' ← mergeOne s r0 c0 r1 c1
       remerge rows start count s' rest
 
-/-- `Table._move_merges(axis, start, count)`: nothing to do if every merged rectangle ends before
-    `start` (in particular: no merges); otherwise clear the map, un-merge every cell, merge the moved
-    rectangles again. -/
+/-- `Table._move_merges(axis, start, count)`: nothing to do if the rows / columns were appended
+    (`start + count == (self.num_rows, self.num_cols)[axis]`, the dimensions being those after the
+    edit) or if every merged rectangle ends before `start` (in particular: no merges); otherwise clear
+    the map, un-merge every cell, merge the moved rectangles again. -/
 def moveMerges (s : MState) (rows : Bool) (start count : Int) : PyM MState :=
-  let rects := (anchorsOf s.mmap).map rectOf
-  if rects.all (fun q => decide ((if rows then q.2.2.1 else q.2.2.2) < start)) then .ok s
-  else remerge rows start count { grid := { s.grid with data := unmerge s.grid.data }, mmap := [] } rects
+  if count > 0 ∧ start + count = (if rows then s.grid.numRows else s.grid.numCols) then .ok s
+  else
+    let rects := (anchorsOf s.mmap).map rectOf
+    if rects.all (fun q => decide ((if rows then q.2.2.1 else q.2.2.2) < start)) then .ok s
+    else remerge rows start count { grid := { s.grid with data := unmerge s.grid.data }, mmap := [] } rects
 
 /-- `start_row if start_row is not None else <default>`. -/
 def startOrI (start : Option Int) (dflt : Int) : Int := match start with | some st => st | none => dflt
